@@ -8,12 +8,12 @@ import (
 	ethcommon "github.com/ethereum/go-ethereum/common"
 	tmtypes "github.com/tendermint/tendermint/types"
 
+	bitcoin "github.com/Oneledger/protocol/chains/bitcoin"
 	ethchain "github.com/Oneledger/protocol/chains/ethereum"
 	"github.com/Oneledger/protocol/chains/ethereum/contract"
 	"github.com/Oneledger/protocol/config"
 	"github.com/Oneledger/protocol/consensus"
 	"github.com/Oneledger/protocol/data/balance"
-	bitcoin "github.com/Oneledger/protocol/chains/bitcoin"
 	"github.com/Oneledger/protocol/data/chain"
 	"github.com/Oneledger/protocol/data/delegation"
 	"github.com/Oneledger/protocol/data/evidence"
@@ -28,13 +28,13 @@ import (
 // GenesisSpec is the abstract description of a genesis; everything in it is deterministic.
 type GenesisSpec struct {
 	ChainID      string         `json:"chain_id"`
-	OLTDecimal   int64          `json:"olt_decimal"`    // 2 in the small-amount family: 1 OLT = 100 units
-	Fork         int64          `json:"fork"`           // FrankensteinBlock; 0 = disabled
-	Accounts     []string       `json:"accounts"`       // names; each gets Balance units of OLT
-	Balance      int64          `json:"balance"`        // units of OLT per account and per stake account
-	Validators   []GenValidator `json:"validators"`     // initial validators with their stake (whole OLT)
-	Candidates   []string       `json:"candidates"`     // further validator identities without initial stake
-	Witnesses    []string       `json:"witnesses"`      // validator names that are ethereum witnesses
+	OLTDecimal   int64          `json:"olt_decimal"` // 2 in the small-amount family: 1 OLT = 100 units
+	Fork         int64          `json:"fork"`        // FrankensteinBlock; 0 = disabled
+	Accounts     []string       `json:"accounts"`    // names; each gets Balance units of OLT
+	Balance      int64          `json:"balance"`     // units of OLT per account and per stake account
+	Validators   []GenValidator `json:"validators"`  // initial validators with their stake (whole OLT)
+	Candidates   []string       `json:"candidates"`  // further validator identities without initial stake
+	Witnesses    []string       `json:"witnesses"`   // validator names that are ethereum witnesses
 	Staking      StakingOpt     `json:"staking"`
 	Evidence     EvidenceOpt    `json:"evidence"`
 	Proposal     ProposalOpt    `json:"proposal"`
